@@ -15,6 +15,7 @@ RULE = ('same DAG family as C03 (all shapes up to the node bound, content alphab
         'distinct cell exactly once and all reachable, index = cumulative end offsets (x2 with cache bits), CRC-32C over everything before it, '
         'no trailing bytes, level mask in d1. non-trivial = more than one cell or unaligned data; states = distinct (DAG, option set); '
         'transitions = to_boc calls; traces = emitted byte strings decoded by the reference decoder')
+RULE += ' Fifth session: the requests to_boc(has_cache_bits=True) without has_idx (with and without CRC) are option sets too: whatever is emitted must be a conforming bag (flags byte: the index is implied).'
 LEVEL_TEXT = ('Bounded-exhaustive: every DAG of the family under every valid option set is serialised by the real code and the bytes are decoded '
               'by an independent strict implementation of serialized_boc that was itself validated on a node-written main-net block (index + '
               'cache bits + CRC). A self-consistent but non-conforming writer/reader pair cannot pass.')
